@@ -94,8 +94,10 @@ def remove_empty_metadata(a: ast.AST) -> ast.AST:
             assert isinstance(n, ast.Call)
             if isinstance(n.func, ast.Name) and n.func.id == "MetaData":
                 if len(n.args) == 2:
-                    d = ast.literal_eval(n.args[1])
-                    if isinstance(d, dict) and len(d) == 0:
+                    # Only an empty dictionary literal marks an empty block: anything else
+                    # (including a user's own function of this name) is left as it is.
+                    d = n.args[1]
+                    if isinstance(d, ast.Dict) and len(d.keys) == 0:
                         return n.args[0]
             return n
 
